@@ -35,7 +35,10 @@ def gen_factor_file(rng, k):
         sets = list(dict.fromkeys(sets))
         used[lab] = (local, sets)
         for s in sets:
-            lines.append(f"[{', '.join(str(i) for i in s)}], {lab}")
+            w = list(s)
+            if rng.random() < 0.5:
+                rng.shuffle(w)       # the order in which a line lists its indices carries no meaning
+            lines.append(f"[{', '.join(str(i) for i in w)}], {lab}")
     rng.shuffle(lines)
     return lines, used
 
